@@ -76,7 +76,7 @@ PROPS = {
     'C15': dict(
         harness='c15_dns',
         title='DNS client',
-        flavours=dict(asan=dict(quick_s=30, thorough_s=600)),
+        flavours=dict(asan=dict(quick_s=25, thorough_s=600), valgrind=dict(quick_runs=300, quick_s=40, thorough_runs=4000, thorough_s=600)),
         mode='single',
         real=['network::DnsRequest (reply parser, request table)', 'network::UdpSocket', 'eventx::TimeoutMonitor', 'util::Deserializer', 'event loop', 'kernel UDP over 127.0.0.1 (redirected at the sendto seam)'],
         stub=['the name servers and the network between client and servers (replies crafted and scheduled by the plan)', 'monotonic clock'],
